@@ -432,3 +432,41 @@ def _(x, a):
 def _(x, a):
     _pos(a["shape"], "extent")
     return np.ones(a["shape"], dtype=np.float64 if a["dt"] == "f64" else np.int64)
+
+
+# ---- element-wise helpers used in pipelines ------------------------------
+def _bin(fn):
+    def r(x, a):
+        return _np(fn, x[0], x[1])
+    return r
+
+
+REFS["add"] = _bin(np.add)
+REFS["subtract"] = _bin(np.subtract)
+REFS["multiply"] = _bin(np.multiply)
+REFS["maximum"] = _bin(np.maximum)
+REFS["minimum"] = _bin(np.minimum)
+REFS["negative"] = lambda x, a: -x[0]
+REFS["square"] = lambda x, a: x[0] * x[0]
+REFS["add_scalar"] = lambda x, a: x[0] + a["s"]
+REFS["rsub_scalar"] = lambda x, a: a["s"] - x[0]
+REFS["mul_scalar"] = lambda x, a: x[0] * a["s"]
+
+
+# ---- slices (C05) as pipeline stages ------------------------------------
+def _slice_ref(x, a):
+    def spec(sp):
+        if isinstance(sp, int):
+            return sp
+        if sp == "...":
+            return Ellipsis
+        return slice(sp[0], sp[1], sp[2] if len(sp) == 3 else None)
+    try:
+        return x[0][tuple(spec(s) for s in a["slices"])]
+    except IndexError as e:
+        raise Invalid(str(e))
+
+
+for _n in ["slice1", "slice2_01", "slice2_23", "slice2_45", "slice2_67", "slice2_89", "slice3_0", "slice3_3", "slice3_4", "slice3_7",
+           "slice3_8", "slice3_9", "dslice_tri", "dslice_either_tri", "dslice_either_nni", "dslice_ni", "dslice_ii"]:
+    REFS[_n] = _slice_ref
